@@ -44,9 +44,12 @@ def search(goal, stages, mult_vars, max_pow=8, fixed=None):
         r = M * goal
         cof = []
         ok = True
-        for gens, order in stages:
-            qs, r = divide(r, gens, order)
-            cof += list(zip(qs, gens))
+        try:
+            for gens, order in stages:
+                qs, r = divide(r, gens, order)
+                cof += list(zip(qs, gens))
+        except ValueError:
+            return None     # a hypothesis polynomial without a +-1 leading coefficient: no certificate from this search
         if r.is_zero():
             return M, cof
         if sum(ks) > 0 and len(r.t) > 20000:
